@@ -3,6 +3,8 @@ mod dev;
 mod fs;
 mod mkfs;
 mod reader;
+mod sd;
+mod sim;
 mod vals;
 
 use serde_json::Value as J;
@@ -67,6 +69,23 @@ fn main() {
             }
             let _ = std::fs::remove_file(format!("{}.progress", &args[3]));
             println!("{}", serde_json::json!({"histories": tot.0, "api_calls": tot.1, "dev_writes": tot.2, "dev_reads": tot.3, "crash_mounts": tot.4, "panics": tot.5}));
+        }
+        "sd" => {
+            // vh sd <scenarios.json> <out.ndjson>
+            let sc: J = serde_json::from_reader(std::fs::File::open(&args[2]).expect("open scenarios")).expect("parse scenarios");
+            let mut out = std::io::BufWriter::new(std::fs::File::create(&args[3]).expect("create out"));
+            let mut n = 0;
+            for s in sc["scenarios"].as_array().unwrap() {
+                let mut evs = Vec::new();
+                sd::run_scenario(s, &mut evs);
+                for e in &evs {
+                    serde_json::to_writer(&mut out, e).unwrap();
+                    out.write_all(b"\n").unwrap();
+                }
+                n += 1;
+            }
+            out.flush().unwrap();
+            println!("{}", serde_json::json!({"scenarios": n}));
         }
         x => {
             eprintln!("unknown subcommand {}", x);
